@@ -144,6 +144,56 @@ def gen_typed(rng, maxops, kinds=None):
     return 't%d.%d;%s|%s' % (ks, vs, hs, ' '.join(ops))
 
 
+def gen_alias(rng, maxops):
+    """Arguments that live INSIDE the table's own slot array: set(t, k, get(t, k2)) (S), set with the key
+    object the iteration yields (K), set(t, get(t,k), get(t,k2)) (X), get / mem / rem with a stored value
+    as the key (G M R).  Keys and values come from one small pool, so a stored value is often (not
+    always) a key.  The fill phase duplicates bindings under new keys, so that the aliased set is the
+    one that crosses each growth threshold (1, 5, 11, 23, 53 slots); removals through aliased keys
+    cross the shrink thresholds.  The harness runs with M_PERTURB (freed memory is scribbled) and a
+    second time under AddressSanitizer."""
+    same = rng.random() < .75           # key and value of one type: a value can be used as a key
+    if same:
+        ks = vs = rng.choice([0, 0, 0, 4, 12, 20, 1])
+    else:
+        ks, vs = rng.choice([(0, 12), (12, 0), (4, 20), (1, 0), (20, 4)])
+    n = rng.choice([6, 12, 25, 60])
+    if ks == 1 or vs == 1:
+        pool = rng.sample(range(0, 256), min(n, 60))
+    elif rng.random() < .4:
+        pool = [1265 * i for i in range(n)]
+    else:
+        pool = rng.sample(range(0, 300), n)
+    hs = 'id' if (ks == 0 or rng.random() < .6) else ','.join('%d:%d' % (k, rng.choice([0, 4, rng.randrange(64)])) for k in pool)
+    val = lambda: rng.choice(pool) if same and rng.random() < .8 else rng.randrange(200)
+    ops, live = [], []
+    k0 = pool[0]
+    ops.append('s%d,%d' % (k0, val())); live.append(k0)
+    fill = rng.random() < .7
+    for i in range(rng.randrange(2, maxops)):
+        r, k = rng.random(), rng.choice(pool)
+        if fill and i + 1 < len(pool) and i < 56:
+            k = pool[i + 1]; r = rng.choice([.05, .05, .05, .25, .95])
+        src = rng.choice(live) if live else k
+        if r < .20: ops.append('S%d,%d' % (k, src)); live.append(k) if k not in live else None
+        elif r < .30: ops.append('K%d,%d' % (k, val())); live.append(k) if k not in live else None
+        elif r < .40 and same: ops.append('X%d,%d' % (src, rng.choice(live) if live else k))
+        elif r < .55 and same: ops.append('G%d' % src)
+        elif r < .62 and same: ops.append('M%d' % src)
+        elif r < .70 and same: ops.append('R%d' % src)
+        elif r < .80:
+            if live: k = rng.choice(live); live.remove(k)
+            ops.append('r%d' % k)
+        elif r < .85: ops.append(rng.choice('gm') + str(k))
+        elif r < .88: ops.append(rng.choice('ca'))
+        else: ops.append('s%d,%d' % (k, val())); live.append(k) if k not in live else None
+        if ops[-1][0] in 'XR':
+            live = []        # bindings changed through stored values: stop tracking, ops stay legal either way
+    ops += ['g%d' % k for k in pool[:10]]
+    pre = 't%d.%d;' % (ks, vs) if (ks or vs) else ''
+    return pre + hs + '|' + ' '.join(ops)
+
+
 def continuations(rng, case, count, maxops=25):
     """Directed search around a case on which model and implementation differ: keep its hash
     script and operations, continue with set/rem/get/mem over its keys and over new keys whose
@@ -157,7 +207,7 @@ def continuations(rng, case, count, maxops=25):
     toks = [t for t in ops.split(' ') if t]
     out = []
     if hs == 'id':
-        keys = sorted({int(t[1:].split(',')[0]) for t in toks if t[0] in 'srgm'}) or [0]
+        keys = sorted({int(t[1:].split(',')[0]) for t in toks if t[0] in 'srgmSKXGMR'}) or [0]
         extra = [k + d * m for k in keys[:6] for d in (1, -1) for m in (5, 11, 23, 55, 253)]
         extra = [k for k in extra if -2**63 <= k < 2**63]
         pool, spec = keys + extra, 'id'
@@ -258,6 +308,10 @@ CORPUS = [
     't12.0;id|s1,10 s2,20 s3,30 s4,40 s5,50 s6,60 g1 g6 s1,11 r2 c g1 g3 a g6 m2',
     't12.12;0:0,5:0,10:4,15:4|s0,1 s5,2 s10,3 s15,4 g0 g5 g10 g15 r0 g5 c g15 z9 g10',
     't1.20;id|s55,1 s110,2 s165,3 s220,4 s0,5 g55 g220 r110 g165 a g0 m110',
+    # arguments inside the table's own storage; the aliased set crosses the growth thresholds 1->5 and 5->11
+    'id|s1,2 S2,1 S3,2 S4,3 S5,4 S6,5 g6 K3,9 X1,2 g2',
+    # D22: a stored VALUE passed as the key must be looked up like any other Int (Table_Get's in-table shortcut)
+    'id|s1,2 s2,3 G1 M1 s7,5 G7 M7',
 ]
 
 
@@ -299,7 +353,11 @@ def run(ctx):
                        'the same kinds of histories (growth 1-5-11-23-53, updates, removals with shrink, copy, assign over an existing table, resize, '
                        'new with pairs) on Table<K,V> with user struct types of 1, 4, 12 and 20 bytes and Int, as key and as value: every byte of every '
                        'stored key and value must be the encoding of the integer the model holds, and step / reserved key bytes / reserved value bytes '
-                       'of the slot must equal the model layout (8 + round_up(ksize) + round_up(vsize) plus two headers); a case is non-trivial when at least one entry sits away from its '
+                       'of the slot must equal the model layout (8 + round_up(ksize) + round_up(vsize) plus two headers); a fourth stream ("alias") passes '
+                       'arguments that live inside the table itself — set(t,k,get(t,k2)), set with the key object the iteration yields, '
+                       'set(t,get(t,k),get(t,k2)), get/mem/rem with a stored value as key — with the aliased set placed on the calls that cross the '
+                       'growth thresholds (1,5,11,23,53 slots), run with M_PERTURB and again under AddressSanitizer; the model takes arguments by '
+                       'value; a case is non-trivial when at least one entry sits away from its '
                        'home slot (displacement happened); distinct = distinct implementation transcripts; every step of every case '
                        'compares outcome, len and the iterated bindings with the finite map (oracle) and the whole slot array with the '
                        'extracted model (correspondence)')
@@ -309,8 +367,27 @@ def run(ctx):
     ctx.coq()
     drv = ctx.build_driver('Table')
     h = ctx.build_harness('table_wb.c', whitebox='Table')
-    henv = dict(os.environ, H_TIMEOUT='3')       # a case takes microseconds; a hang is an observation
-    run_impl = lambda cs: ctx.run_lines(h, cs, env=henv, timeout=3000)[1]
+    # glibc scribbles over freed memory (the harness calls mallopt(M_PERTURB)); chunks that go to the thread
+    # cache are skipped by glibc >= 2.26, so the cache is switched off for the harness process
+    henv = dict(os.environ, H_TIMEOUT='3', GLIBC_TUNABLES='glibc.malloc.tcache_count=0')       # a case takes microseconds; a hang is an observation
+
+    def retrying(exe, env, slow):
+        """A case whose child was killed by the watchdog or printed no record at all (fork refused under
+        memory pressure) is run once more on its own with a longer watchdog; only that second
+        observation counts.  A genuine hang or crash shows again; a loaded machine does not."""
+        env2 = dict(env, H_TIMEOUT=str(slow))
+        def run(cs):
+            out = ctx.run_lines(exe, cs, env=env, timeout=3000)[1]
+            if len(out) != len(cs):
+                return out
+            for i, (c, o) in enumerate(zip(cs, out)):
+                if 'TIMEOUT' in o or not o.startswith('new'):
+                    r = ctx.run_lines(exe, [c], env=env2, timeout=600)[1]
+                    if len(r) == 1:
+                        out[i] = r[0]
+            return out
+        return run
+    run_impl = retrying(h, henv, 8)
     run_model = lambda cs: ctx.run_lines(drv, cs, args=['model'])[1]
     run_spec = lambda cs: ctx.run_lines(drv, cs, args=['spec'])[1]
     d = vlib.Differential(ctx, 'table', run_impl, run_model, run_spec, oracle, corr, nontrivial, split, join)
@@ -345,7 +422,27 @@ def run(ctx):
     typed = [gen_typed(ctx.rng, 60 if quick else 120) for i in range(nt)]
     ctx.cov['streams'] = {'mixed': n, 'dense': n, 'typed (element sizes 1, 4, 12, 20 and Int, as key and as value)': nt,
                           'corpus': len(CORPUS)}
-    ok = feed_all(cases) and feed_all(dense) and feed_all(typed)
+    na = 700 if quick else 20000
+    alias = [gen_alias(ctx.rng, 70 if quick else 120) for i in range(na)]
+    ctx.cov['streams']['alias (arguments that point into the table: get results, iteration keys; M_PERTURB)'] = na
+    ok = feed_all(cases) and feed_all(dense) and feed_all(typed) and feed_all(alias)
+    if ok:
+        # the aliasing histories once more under AddressSanitizer: a read from a freed or foreign slot
+        # array aborts the case (an observation), whatever the bytes happen to be
+        ctx.build_lib('asan', cflags=['-fsanitize=address', '-fno-omit-frame-pointer', '-O1'])
+        ha = ctx.build_harness('table_wb.c', tag='asan', name='table_wb_asan', whitebox='Table',
+                               extra=['-fsanitize=address', '-fno-omit-frame-pointer'])
+        aenv = dict(os.environ, H_TIMEOUT='10', ASAN_OPTIONS='detect_leaks=0:abort_on_error=1:allocator_may_return_null=1')
+        run_asan = retrying(ha, aenv, 40)
+        da = vlib.Differential(ctx, 'table_asan', run_asan, run_model, run_spec, oracle, corr, nontrivial, split, join)
+        nasan = 250 if quick else 5000
+        ctx.cov['streams']['alias stream replayed under AddressSanitizer'] = nasan
+        da.feed([c for c in CORPUS if any(o[0] in 'SKXGMR' for o in c.split('|', 1)[1].split())])
+        for i in range(0, nasan, 250):
+            if da.oracle_fail: break
+            da.feed(alias[i:i + 250])
+        if da.oracle_fail or da.corr_fail:
+            da.report()
     if ok and not quick:
         t0 = __import__('time').time()
         cnt = 0; buf = []
